@@ -422,13 +422,20 @@ H1Cases ==
   \cup {H1Case(r, h, s, "valid") : r \in {"ok", "http10"}, h \in {"a", "b"}, s \in SeqUpTo(H1Tok, MaxHdr)}
   \cup {H1Case("ok", "a", s, k) : s \in {x \in SeqUpTo(H1Tok, 2) : \E i \in 1..Len(x) : x[i] \in H1Te}, k \in ChunkShapes \ {"valid"}}
 
+\* triples of the framing-relevant tokens (order matters between Content-Length and Transfer-Encoding fields); part of
+\* every tier, subsumed by the wide slice when MaxHdr >= 3
+H1Core == {"cl:5", "cl:3", "cl:plus", "cl:listeq", "te:chunked", "te:gzip", "te:chunked,identity", "te:xchunked"}
+H2Core == {"cl:5", "cl:3", "host:a", "host:b", "te:trailers", "plain", "cookie"}
+H1Triples == {H1Case("ok", "a", s, "valid") : s \in [1..3 -> H1Core]}
+H2Triples == {H2Case("ok", s, d, "none") : s \in [1..3 -> H2Core], d \in {"es", "d5"}}
+
 H2Cases ==
   {H2Case(p, s, d, "none") : p \in PS, s \in SeqUpTo(H2Tok, 1), d \in {"es", "d5"}}
   \cup {H2Case("ok", s, d, "none") : s \in SeqUpTo(H2Tok, MaxHdr), d \in {"es", "d5"}}
   \cup {x \in {H2Case("ok", s, d, t) : s \in {<<>>, <<"cl:5">>, <<"cl:3">>, <<"cl:5", "cl:5">>, <<"plain">>},
                                        d \in DataShapes, t \in TrShapes} : x.data # "es" \/ x.tr = "none"}
 
-Cases == H1Cases \cup H2Cases
+Cases == H1Cases \cup H2Cases \cup H1Triples \cup H2Triples
 
 Init == case \in Cases
 Next == UNCHANGED case
